@@ -14,6 +14,7 @@ import PersimVerif.Drv.Sliced
 import PersimVerif.Drv.Plot
 import PersimVerif.Drv.IR
 import PersimVerif.Drv.Graph
+import PersimVerif.Drv.Rows
 /-!
   Line-protocol driver: one operation per input line, one canonical answer per line.
   Imports the models only (no Mathlib), so it links as a `lean_exe`.
@@ -24,7 +25,7 @@ def handlers : List Handler :=
   [Drv.Entropy.handle, Drv.Imager.handle, Drv.Transformers.handle, Drv.Bottleneck.handle,
    Drv.Wasserstein.handle, Drv.Landscape.handle, Drv.Approx.handle, Drv.PL.handle,
    Drv.Image.handle, Drv.Kernels.handle, Drv.MGH.handle, Drv.Heat.handle, Drv.Sliced.handle,
-   Drv.Plot.handle, Drv.IR.handle, Drv.Graph.handle]
+   Drv.Plot.handle, Drv.IR.handle, Drv.Graph.handle, Drv.Rows.handle]
 
 def answer (line : String) : String :=
   match (line.trimAscii.toString.splitOn " ").filter (· ≠ "") with
